@@ -883,6 +883,33 @@ func propCompile(t *rapid.T) {
 	if v.fail != "" {
 		t.Fatalf("%s\n%s", v.fail, fc)
 	}
+	// the same glyph objects with other coordinates (every path coordinate
+	// moved one unit towards zero, no command or stem added or removed, widths
+	// unchanged): compile again.  Whatever the compiler remembers about a
+	// glyph it has seen must not survive the edit.
+	edited := 0
+	for _, g := range fc.font.Glyphs {
+		for i := range g.Cmds {
+			for j, a := range g.Cmds[i].Args {
+				if g.Cmds[i].Op == cff.OpHintMask || g.Cmds[i].Op == cff.OpCntrMask {
+					continue
+				}
+				if a > 0 {
+					g.Cmds[i].Args[j] = a - 1
+				} else {
+					g.Cmds[i].Args[j] = a + 1
+				}
+				edited++
+			}
+		}
+	}
+	if edited > 0 && !rapid.Bool().Draw(t, "skipRecompile") {
+		v2 := check(fc)
+		if v2.fail != "" {
+			t.Fatalf("second compilation, after the glyphs were edited in place: %s\n%s", v2.fail, fc)
+		}
+		v.labels = append(v.labels, "recompiled-after-in-place-edit")
+	}
 	stats.CaseIn("compile", v.fp, v.nt, func() string { return fc.String() }, v.labels...)
 }
 
